@@ -8482,10 +8482,10 @@ let rec block_visit c fuel n0 t =
        (match k with
         | KBlock ->
           (match cs with
-           | [] -> children n0 t
+           | [] -> if leaf n0 then Some (n0, t) else children n0 t
            | cx :: l ->
              (match l with
-              | [] -> children n0 t
+              | [] -> if leaf n0 then Some (n0, t) else children n0 t
               | n1 :: l0 ->
                 let Node (t1, stmts) = n1 in
                 (match t1 with
@@ -8527,8 +8527,9 @@ let rec block_visit c fuel n0 t =
                                         | _ :: _ -> None)
                                      | _ -> None)))
                             | None -> None)
-                    | _ :: _ -> children n0 t)
-                 | _ -> children n0 t)))
+                    | _ :: _ ->
+                      if leaf n0 then Some (n0, t) else children n0 t)
+                 | _ -> if leaf n0 then Some (n0, t) else children n0 t)))
         | KArrow ->
           children
             (if status_eqb t.t_status Cancelled
@@ -8544,8 +8545,8 @@ let rec block_visit c fuel n0 t =
              then Some (n0, (t_cancel gen_cancel_reason t))
              else Some (n0, t)
            | None -> Some (n0, t))
-        | _ -> children n0 t)
-     | _ -> children n0 t)
+        | _ -> if leaf n0 then Some (n0, t) else children n0 t)
+     | _ -> if leaf n0 then Some (n0, t) else children n0 t)
 
 (** val insert_prologue : config -> node list -> node list **)
 
@@ -9191,18 +9192,38 @@ let is_ns_ident = function
       | _ -> false)
    | _ -> false)
 
-(** val ns_count : node -> nat **)
+(** val stop_kind : node -> bool **)
 
-let rec ns_count = function
+let stop_kind n0 =
+  (||) (is_kind KBlock n0) (is_kind KArrow n0)
+
+(** val meas : (node -> nat option) -> nat -> node -> nat **)
+
+let rec meas stop kappa = function
 | Node (t, cs) ->
   if is_ident (Node (t, cs))
-  then if is_ns_ident (Node (t, cs)) then S O else O
+  then if is_ns_ident (Node (t, cs)) then kappa else O
   else if leaf (Node (t, cs))
        then O
-       else let rec go = function
-            | [] -> O
-            | c :: l' -> add (ns_count c) (go l')
-            in go cs
+       else (match if stop_kind (Node (t, cs))
+                   then stop (Node (t, cs))
+                   else None with
+             | Some w -> w
+             | None ->
+               let rec go = function
+               | [] -> O
+               | c :: l' -> add (meas stop kappa c) (go l')
+               in go cs)
+
+(** val no_stop : node -> nat option **)
+
+let no_stop _ =
+  None
+
+(** val ns_count : node -> nat **)
+
+let ns_count =
+  meas no_stop (S O)
 
 (** val any_node : (node -> bool) -> node -> bool **)
 
